@@ -268,6 +268,7 @@ type XMLChange struct {
 	Updates   Conf    // leaves to write (merge)
 	Deletes   []IPath // subtrees carrying operation delete / remove
 	DelOps    []string
+	DelPfx    []bool // the operation attribute carried the nc: prefix
 	Replaces  []IPath // elements carrying operation replace (root or leaf-lists)
 	Anomalies []string
 }
@@ -353,6 +354,7 @@ func decodeXMLChildren(n *Node, at IPath, elems []*etree.Element, inheritedNS st
 			if hasOp && (op == "delete" || op == "remove") {
 				ch.Deletes = append(ch.Deletes, p)
 				ch.DelOps = append(ch.DelOps, op)
+				ch.DelPfx = append(ch.DelPfx, prefixed)
 				continue
 			}
 			d, err := NodeLexToDenotation(c, e.Text())
@@ -365,6 +367,7 @@ func decodeXMLChildren(n *Node, at IPath, elems []*etree.Element, inheritedNS st
 			if hasOp && (op == "delete" || op == "remove") {
 				ch.Deletes = append(ch.Deletes, p)
 				ch.DelOps = append(ch.DelOps, op)
+				ch.DelPfx = append(ch.DelPfx, prefixed)
 				continue
 			}
 			d, err := NodeLexToDenotation(c, e.Text())
@@ -380,6 +383,7 @@ func decodeXMLChildren(n *Node, at IPath, elems []*etree.Element, inheritedNS st
 			if hasOp && (op == "delete" || op == "remove") {
 				ch.Deletes = append(ch.Deletes, p)
 				ch.DelOps = append(ch.DelOps, op)
+				ch.DelPfx = append(ch.DelPfx, prefixed)
 				continue
 			}
 			kids := e.ChildElements()
@@ -390,6 +394,10 @@ func decodeXMLChildren(n *Node, at IPath, elems []*etree.Element, inheritedNS st
 					ch.Anomalies = append(ch.Anomalies, fmt.Sprintf("xml: empty element for non-presence container %s", p.Canon()))
 				}
 				continue
+			}
+			if c.Presence {
+				// merging an element of a presence container creates the container
+				ch.Updates[p.Canon()] = ""
 			}
 			decodeXMLChildren(c, p, kids, ns, honorNS, ch)
 		case KList:
@@ -431,6 +439,7 @@ func decodeXMLChildren(n *Node, at IPath, elems []*etree.Element, inheritedNS st
 			if hasOp && (op == "delete" || op == "remove") {
 				ch.Deletes = append(ch.Deletes, ep)
 				ch.DelOps = append(ch.DelOps, op)
+				ch.DelPfx = append(ch.DelPfx, prefixed)
 				continue
 			}
 			if hasOp && op == "replace" {
